@@ -2,6 +2,7 @@ package c11
 
 import (
 	"fmt"
+	"github.com/go-kid/ioc/container"
 	"reflect"
 	"sort"
 	"strconv"
@@ -30,6 +31,16 @@ const pkg = "verif/harness/c11"
 
 type CustomScan struct {
 	processors.DefaultTagScanDefinitionRegistryPostProcessor
+	id      string
+	lateTag string // a scanner that learns its tag in its factory callback (from the factory's configuration, say)
+}
+
+// PostProcessComponentFactory: the factory callbacks come before the definition scan.
+func (c *CustomScan) PostProcessComponentFactory(f container.Factory) error {
+	if c.lateTag != "" {
+		c.Tag = c.lateTag
+	}
+	return nil
 }
 
 type rec struct{ Comp, Field, Val, Args string }
@@ -40,8 +51,10 @@ var customNodeType component_definition.PropertyType = component_definition.Prop
 
 // newScan: a user scanner with a tag AND an extract handler (fields carrying `alt:"v"` are accepted as mytag:"v").
 func newScan() *CustomScan {
-	return &CustomScan{processors.DefaultTagScanDefinitionRegistryPostProcessor{NodeType: customNodeType, Tag: "mytag",
+	return &CustomScan{id: "mytag", DefaultTagScanDefinitionRegistryPostProcessor: processors.DefaultTagScanDefinitionRegistryPostProcessor{NodeType: customNodeType, Tag: "mytag",
 		ExtractHandler: func(meta *component_definition.Meta, field *component_definition.Field) (tag, tagVal string, ok bool) {
+			// user code may look at what the earlier scanners have found so far (public API)
+			_ = meta.GetAllProperties()
 			// the property is filed under the tag name the field really carries (the legacy alias), not under Tag
 			tagVal, ok = field.StructField.Tag.Lookup("alt")
 			return "alt", tagVal, ok
@@ -89,14 +102,14 @@ func (m *CustomPP) PostProcessProperties(props []*component_definition.Property,
 // (the second scanner is another instance of the SAME Go type, configured for another tag and named differently)
 type CustomScan2 = CustomScan
 
-func (c *CustomScan) Naming() string { return "custom-scan-" + c.Tag }
+func (c *CustomScan) Naming() string { return "custom-scan-" + c.id }
 
 // one scanner instance may serve many containers of a process (a package-level processor value): every container
 // gets its own definitions from it
 var sharedScan, sharedScan2 = newScan(), newScan2()
 
 func newScan2() *CustomScan2 {
-	return &CustomScan2{processors.DefaultTagScanDefinitionRegistryPostProcessor{NodeType: customNodeType, Tag: "mytag2"}}
+	return &CustomScan2{id: "mytag2", lateTag: "mytag2", DefaultTagScanDefinitionRegistryPostProcessor: processors.DefaultTagScanDefinitionRegistryPostProcessor{NodeType: customNodeType}}
 }
 
 type CustomPP2 struct {
